@@ -686,3 +686,96 @@ func corrInits(seed uint64, n int, t tools, id *int) {
 		}
 	}
 }
+
+// ---------------------------------------------------------------- one multi-track segment, optimisation on/off (X lines)
+//	X id opt ids groups obs
+//	  groups = per track (in ids order) the samples added, <dts>:<dur>:<cto>:<flags>:<data hex> joined by '/', "-" = the
+//	           track has no sample in the segment; joined by '|'
+//	  obs    = ok|<id>=<samples>;... (every id read back from the decoded segment) | err | panic
+func corrMuxOpt(seed uint64, n int, id *int) {
+	r := hx.NewRng(seed ^ 0x0b7)
+	for i := 0; i < n; i++ {
+		k := r.Pick(1, 2, 2, 3)
+		ids := make([]uint32, k)
+		base := uint32(r.Pick(1, 1, 4))
+		for j := range ids {
+			ids[j] = base + uint32(j)*uint32(r.Pick(1, 1, 3))
+			if j > 0 && ids[j] <= ids[j-1] {
+				ids[j] = ids[j-1] + 1
+			}
+		}
+		opt := i%2 == 1
+		frag, err := mp4.CreateMultiTrackFragment(uint32(i+1), ids)
+		if err != nil {
+			panic(err)
+		}
+		groups := make([]string, k)
+		allEmpty := r.Intn(10) == 0
+		for j, tid := range ids {
+			cnt := r.Range(0, 6)
+			if allEmpty || r.Intn(5) == 0 {
+				cnt = 0
+			}
+			uniform := r.Intn(3) == 0
+			dts := uint64(r.Range(0, 100000))
+			var p []string
+			for s := 0; s < cnt; s++ {
+				dur := uint32(r.Pick(0, 40, 40, 1024, 3000))
+				size := r.Range(0, 9)
+				flags := uint32(r.Pick(0x02000000, 0x01010000, 0x00010000))
+				cto := int32(r.Pick(0, 0, 40, -40))
+				if uniform {
+					dur, size, cto = 40, 4, 0
+					if s > 0 {
+						flags = 0x01010000
+					}
+				}
+				data := sampleBytes(int(tid), s+1, uint32(size))
+				fs := mp4.FullSample{Sample: mp4.Sample{Flags: flags, Dur: dur, Size: uint32(len(data)), CompositionTimeOffset: cto},
+					DecodeTime: dts, Data: data}
+				_ = frag.AddFullSampleToTrack(fs, tid)
+				h := hex.EncodeToString(data)
+				p = append(p, fmt.Sprintf("%d:%d:%d:%d:%s", dts, dur, cto, flags, h))
+				dts += uint64(dur)
+			}
+			groups[j] = "-"
+			if len(p) > 0 {
+				groups[j] = strings.Join(p, "/")
+			}
+		}
+		if opt {
+			frag.EncOptimize = mp4.OptimizeTrun
+		}
+		obs := func() (o string) {
+			defer func() {
+				if rec := recover(); rec != nil {
+					o = "panic"
+				}
+			}()
+			var buf bytes.Buffer
+			if err := frag.Encode(&buf); err != nil {
+				return "err"
+			}
+			f, err := decodeBytes(buf.Bytes())
+			if err != nil || len(f.Segments) != 1 || len(f.Segments[0].Fragments) != 1 {
+				return "unreadable"
+			}
+			var per []string
+			for _, tid := range ids {
+				ss, err := fragSamples(f.Segments[0].Fragments[0], &mp4.TrexBox{TrackID: tid, DefaultSampleDuration: 7, DefaultSampleSize: 1, DefaultSampleFlags: 0x10000}, tid)
+				if err != nil {
+					per = append(per, fmt.Sprintf("%d=err", tid))
+					continue
+				}
+				per = append(per, fmt.Sprintf("%d=%s", tid, flatsString(ss)))
+			}
+			return "ok|" + strings.Join(per, ";")
+		}()
+		o := "0"
+		if opt {
+			o = "1"
+		}
+		fmt.Fprintf(out, "X\tx%d\t%s\t%s\t%s\t%s\n", *id, o, idsString(ids), strings.Join(groups, "|"), obs)
+		*id++
+	}
+}
